@@ -58,6 +58,11 @@ func (sfc *StructFieldsCopy) Frag(ctx context.Context) iter.Seq[string] {
 func (sfc *StructFieldsCopy) createFieldSnippet(f *types.Var) snippet.Snippet {
 	fieldType := f.Type()
 
+	// a field declared through an alias of a named type is copied like a field of that named type
+	if named, ok := types.Unalias(fieldType).(*types.Named); ok {
+		fieldType = named
+	}
+
 	switch x := fieldType.(type) {
 	case *types.Named:
 		var fc *FieldContext
